@@ -5,9 +5,10 @@ import D3.Driver.VecCodec
 Driver of C06.  Functions:
 
 * `C06.hist`  : run a history of BVH operations on the model (two BVHs, `bvh 0|1` selects).
-  Header: `NF { f ntab {pose(12) box(6)}*ntab haswl [nwl w*] }*NF` — for every frame the table
-  `pose ↦ AABB` of its (abstract) collider and its whitelist.  Ops:
-  `add f j` · `upd n {f j}*n` (transform manager answers `table_f[j].pose`) ·
+  Header: `NF { f ntab {pose(12) box(6)}*ntab haswl [nwl w*] }*NF` — for every id the table
+  `pose ↦ AABB` of an (abstract) collider object and, if the id is a frame, its whitelist.  Ops:
+  `add f tid j` (collider of frame `f` = table `tid`, initial pose `table_tid[j].pose`) ·
+  `upd n {f tid j}*n` (transform manager answers `table_tid[j].pose` for frame `f`) ·
   `qc box(6) nwl w*` · `oth` · `self` · `det nh {f g}*nh` · `any nh {f g}*nh` · `dump` · `link`.
 * `C06.link`  : `linkCheck` (C05 `wfCheck` + leaf/collider link) on arrays dumped from the
   implementation.
@@ -110,17 +111,18 @@ partial def runOps (infos : Infos α) (wl : Whitelists) (s0 s1 : State α) (cur 
       runOps infos wl s0 s1 k (outs.push "ok")
     | "add" =>
       let f ← pNat
+      let tid ← pNat
       let j ← pNat
-      let c : Collider α := { pose := poseAt infos f j, aabb := aabbFn infos f }
+      let c : Collider α := { pose := poseAt infos tid j, aabb := aabbFn infos tid }
       match addCollider s f c with
       | .ok s' => put s' "ok"
       | .error e => put s (rErr e)
     | "upd" =>
       let n ← pNat
-      let l ← pMany n (do let f ← pNat; let j ← pNat; pure (f, j))
+      let l ← pMany n (do let f ← pNat; let tid ← pNat; let j ← pNat; pure (f, (tid, j)))
       let getT : Frame → Pose α := fun f =>
         match dGet l f with
-        | some j => poseAt infos f j
+        | some (tid, j) => poseAt infos tid j
         | none => idPose
       match updateColliderPoses getT s with
       | .ok s' => put s' "ok"
